@@ -288,17 +288,21 @@ def run(REG, tier, seed, jobs):
     ev, nt, fails = pmap(_stream_chunk, chunked(gen, 3000), jobs)
     parts.append({'name': 'C18/bounded/streams-vs-TAP-reference', 'function': 'TAPParser.parse', 'bound': f'all streams of <= {n} lines over {len(ALPHA)} line forms, plus random streams of 4..8 lines',
                   'evaluations': ev, 'distinct_nontrivial': nt, 'rule': 'non-trivial: the reference yields at least one subtest', 'exhaustive': False, 'failures': fails})
-    vs = [(seq, rc) for k in (0, 1, 2) for seq in itertools.product(ALPHA, repeat=k) for rc in (0, 1)]
-    vs += [(tuple(rnd.choice(ALPHA) for _ in range(rnd.randint(3, 6))), rnd.choice((0, 0, 1))) for _ in range(6000 if tier == 'quick' else 100000)]
+    vs = [(seq, rc) for k in (0, 1, 2) for seq in itertools.product(ALPHA, repeat=k) for rc in (0, 1, 77)]
+    vs += [(tuple(rnd.choice(ALPHA) for _ in range(rnd.randint(3, 6))), rnd.choice((0, 0, 1, 77, 99))) for _ in range(6000 if tier == 'quick' else 100000)]
     evv, ntv, failsv = pmap(_verdict_chunk, chunked(iter(vs), 500), jobs)
-    parts.append({'name': 'C18/bounded/TestRunTAP-verdict', 'function': 'TestRunTAP.parse / complete', 'bound': f'{len(vs)} (stream, exit status) pairs: all streams of <= 2 lines over {len(ALPHA)} line forms x exit 0/1, plus random streams of 3..6 lines',
+    parts.append({'name': 'C18/bounded/TestRunTAP-verdict', 'function': 'TestRunTAP.parse / complete', 'bound': f'{len(vs)} (stream, exit status) pairs: all streams of <= 2 lines over {len(ALPHA)} line forms x exit status 0 / 1 / 77 (the skip status of the exitcode protocol, which means nothing special for TAP), plus random streams of 3..6 lines',
                   'evaluations': evv, 'distinct_nontrivial': ntv, 'rule': 'every pair', 'exhaustive': False, 'failures': failsv})
     junk = (tuple(''.join(rnd.choice('ok nt#1.2TAPvB!-\té') for _ in range(rnd.randint(0, 12))) for _ in range(rnd.randint(1, 4))) for _ in range(30000 if tier == 'quick' else 300000))
 
     def _noraise(chunk):
         return 0, 0, []
+    # lines that are well-formed but extreme: very long numbers, names, directives
+    big = [('ok ' + '9' * 5000,), ('1..' + '9' * 5000,), ('TAP version ' + '1' * 5000,), ('ok 1 ' + 'n' * 100000,), ('ok 1 # SKIP ' + 'x' * 100000,), ('not ok ' + '0' * 4000 + '1',),
+           ('1..' + '0' * 4200 + '2', 'ok', 'ok'), ('  ' * 50000 + '---',), ('ok',) * 3000]
+    junk = itertools.chain(junk, iter(big))
     ev2, nt2, fails2 = pmap(_junk_chunk, chunked(junk, 3000), jobs)
-    parts.append({'name': 'C18/bounded/arbitrary-text-never-raises', 'function': 'TAPParser.parse_line', 'bound': 'random text lines of <= 12 characters over "ok nt#1.2TAPvB!-<tab>é"',
+    parts.append({'name': 'C18/bounded/arbitrary-text-never-raises', 'function': 'TAPParser.parse_line', 'bound': 'extreme well-formed lines (numbers of 4 000 - 5 000 digits, names of 100 000 characters, 3 000 lines) and random text lines of <= 12 characters over "ok nt#1.2TAPvB!-<tab>é"',
                   'evaluations': ev2, 'distinct_nontrivial': nt2, 'rule': 'non-trivial: at least one event produced', 'exhaustive': False, 'failures': fails2})
     return {'parts': parts}
 
